@@ -113,6 +113,15 @@ CHECKS['C18'] = dict(
     note='trusted: TLC, Tables.tla / Pack.tla / Mask.tla, pyx-lite for the pack codecs',
     technique='TLC evaluation of table-consistency invariants over the completely enumerated exported tables',
     design='5/C18')
+CHECKS['C05'] = dict(
+    text='For corpus hetero-arenes, the repository\'s aromaticity test inputs and a generated zoo of mono / fused 5-6-7-membered rings: the Kekule '
+         'form, its aromatic form, re-kekulisation, repeated conversions, every enumerated Kekule form with its re-aromatisation, and the aromatic '
+         'form of a renumbered re-inserted copy are recorded; TLC checks the frame conditions (atoms, per-atom hydrogens, non-aromatic bonds '
+         'untouched), valence validity of each Kekule form with the TLA+ rule interpreter, that all forms aromatise to one form (outside the '
+         'unsaturated four-ring gap TLC recognises), idempotence and numbering independence.',
+    note='trusted: TLC, Aromatic.tla + Valence.tla; inputs that do not kekulise are skipped (existence clause not evaluated); stereo cleared',
+    technique='TLC evaluation of Kekule/aromatic relations (frame conditions, valence interpreter) over recorded conversions',
+    design='5/C05')
 PENDING = {}
 
 
